@@ -3,7 +3,7 @@
 # Independently re-verifies a sub-agent's seeded change in its scratch worktree /tmp/wt/<ID>:
 #   (1) patch applies, builds, full suite passes with it;  (2) demo FAILS with patch;  (3) demo PASSES without.
 # On success copies the seed to /verif/seeded/<ID>-<k>/ with meta.json.
-ID=$1; K=$2
+ID=$1; K=$2; TGT=${3:-}
 WT=/tmp/wt/$ID; SD=$WT/_seed/$K
 export GOFLAGS=-mod=mod GOPROXY=off
 unset GOTOOLCHAIN GOSUMDB GOWORK
@@ -13,7 +13,7 @@ git checkout -q -- . ; find internal -name 'zz_seed_demo*_test.go' -delete
 declare -a PKGS
 place() {
   if ls $SD/*_test.go >/dev/null 2>&1; then
-    tgt=$(grep -ho "internal/[a-z/]*zz_seed_demo_test.go" $SD/NOTES.md | sort -u | head -1); tgt=$(dirname $tgt)
+    if [ -n "$TGT" ]; then tgt=$TGT; else tgt=$(grep -ho "internal/[a-z/]*zz_seed_demo_test.go" $SD/NOTES.md | sort -u | head -1); tgt=$(dirname $tgt); fi
     cp $SD/*_test.go $WT/$tgt/; PKGS+=("./$tgt/")
   fi
   for sub in $SD/*/; do
@@ -22,15 +22,15 @@ place() {
     cp $sub/*_test.go $WT/internal/$name/ && PKGS+=("./internal/$name/")
   done
 }
-unplace() { find $WT/internal -name 'zz_seed_demo*_test.go' -delete; }
+unplace() { find $WT/internal -name 'zz_seed_demo*_test.go' -delete; rm -f $WT/zz_seed_demo_test.go; }
 res() { echo "$1" | tee -a $SD/VERIFY.log; }
 : > $SD/VERIFY.log
 # (3) demo without patch
 place
-if go test -count=1 -run 'TestSeedDemo' "${PKGS[@]}" > $SD/demo_nopatch.log 2>&1; then res "demo without patch: PASS"; NP=1; else res "demo without patch: FAIL (bad seed)"; NP=0; fi
+if go test -count=1 -run 'TestSeedDemo|TestZZSeedDemo' "${PKGS[@]}" > $SD/demo_nopatch.log 2>&1; then res "demo without patch: PASS"; NP=1; else res "demo without patch: FAIL (bad seed)"; NP=0; fi
 # (2) demo with patch
 git apply $SD/patch.diff || { res "patch does not apply"; unplace; exit 1; }
-if go test -count=1 -run 'TestSeedDemo' "${PKGS[@]}" > $SD/demo_patch.log 2>&1; then res "demo with patch: PASS (bad seed)"; WP=0; else res "demo with patch: FAIL (as intended)"; WP=1; fi
+if go test -count=1 -run 'TestSeedDemo|TestZZSeedDemo' "${PKGS[@]}" > $SD/demo_patch.log 2>&1; then res "demo with patch: PASS (bad seed)"; WP=0; else res "demo with patch: FAIL (as intended)"; WP=1; fi
 unplace
 # (1) full suite with patch, unedited tests
 if go build ./... > $SD/suite_patch.log 2>&1 && go test -count=1 ./... >> $SD/suite_patch.log 2>&1; then res "full suite with patch: PASS"; FS=1; else res "full suite with patch: FAIL (bad seed)"; FS=0; fi
